@@ -8,6 +8,8 @@ import re
 BO_RE = re.compile(r"^BO_ (\d+) (\w+): (\d+) (\S+)")
 SG_RE = re.compile(r'^\s*SG_ (\w+)\s*(M|m\d+M?|)\s*: (\d+)\|(\d+)@([01])([+-]) \(([^,]+),([^)]+)\) \[([^|]*)\|([^\]]*)\] "([^"]*)"\s*(.*)$')
 VT_RE = re.compile(r"^SIG_VALTYPE_ (\d+) (\w+)\s*:\s*(\d)\s*;")
+LONG_SG_RE = re.compile(r'^BA_ "SystemSignalLongSymbol" SG_ (\d+) (\w+) "([^"]*)";')
+LONG_BO_RE = re.compile(r'^BA_ "SystemMessageLongSymbol" BO_ (\d+) "([^"]*)";')
 MUL_RE = re.compile(r"^SG_MUL_VAL_ (\d+) (\w+) (\w+) ([^;]*);")
 
 
@@ -15,6 +17,7 @@ def read(text):
     """-> {"nodes": [...], "messages": {frame_id: {...}}, "order": [frame ids in file order]}"""
     out = {"nodes": [], "messages": {}, "order": []}
     cur = None
+    long_sg, long_bo = [], []
     for raw in text.replace("\r\n", "\n").split("\n"):
         line = raw.rstrip()
         if line.startswith("BU_:"):
@@ -48,6 +51,14 @@ def read(text):
         if line and not line.startswith((" ", "\t")) and not line.startswith("SG_"):
             if not line.startswith(("SIG_VALTYPE_", "SG_MUL_VAL_")):
                 cur = cur if line.startswith("BO_") else None if line.startswith(("CM_", "BA_", "VAL_", "BO_TX_BU_")) else cur
+        m = LONG_SG_RE.match(line)
+        if m:
+            long_sg.append((int(m.group(1)), m.group(2), m.group(3)))
+            continue
+        m = LONG_BO_RE.match(line)
+        if m:
+            long_bo.append((int(m.group(1)), m.group(2)))
+            continue
         m = VT_RE.match(line)
         if m:
             fid, name, vt = int(m.group(1)), m.group(2), int(m.group(3))
@@ -59,6 +70,20 @@ def read(text):
             fid, name, muxer, ranges = int(m.group(1)), m.group(2), m.group(3), m.group(4)
             if fid in out["messages"] and name in out["messages"][fid]["signals"]:
                 out["messages"][fid]["signals"][name]["mul_val"] = (muxer, ranges.strip())
+    # symbols longer than 32 characters are written shortened, with the full name in an attribute
+    for fid, short, full in long_sg:
+        msg = out["messages"].get(fid)
+        if msg and short in msg["signals"] and full not in msg["signals"]:
+            sig = msg["signals"].pop(short)
+            sig["name"] = full
+            msg["signals"][full] = sig
+            msg["signal_order"] = [full if n == short else n for n in msg["signal_order"]]
+            for other in msg["signals"].values():
+                if other["mul_val"] and other["mul_val"][0] == short:
+                    other["mul_val"] = (full, other["mul_val"][1])
+    for fid, full in long_bo:
+        if fid in out["messages"]:
+            out["messages"][fid]["name"] = full
     return out
 
 
